@@ -154,6 +154,8 @@ pub fn expected_payload(method: &str, params: Option<&J>) -> Payload {
 		}
 		// the handler succeeds but its value cannot be serialised: an internal error that still carries the call's id
 		"unser" => err_code(-32603),
+		// what the transport attached to the request reaches the handler, on every route
+		"ext" => Payload::Result(json!({"ext": true})),
 		"gated" => Payload::Skip,
 		_ if method == "blocking_panic" => err_code(-32603),
 		_ => Payload::Skip,
